@@ -90,6 +90,9 @@ pub struct RepCfg {
 pub struct Program {
     pub cfg: Vec<RepCfg>,
     pub steps: Vec<Step>,
+    /// text is drawn from ASCII characters only (as long as the 62 unique ones last)
+    #[serde(default)]
+    pub ascii: bool,
 }
 
 /// Workload profile: relative weights of step and call kinds.
@@ -125,6 +128,10 @@ pub struct Profile {
     pub max_hostility: u8,
     /// probability (percent) that a delivery re-delivers an already delivered message in mode 2
     pub big_ids: bool,
+    /// percent of histories in which replicas may have formatting clean-up switched on
+    pub cleanup_pct: u32,
+    /// percent of histories whose text is ASCII only
+    pub ascii_pct: u32,
 }
 
 pub const C_TINS: usize = 0;
@@ -175,6 +182,8 @@ impl Profile {
             gc: None,
             max_hostility: 2,
             big_ids: true,
+            cleanup_pct: 100,
+            ascii_pct: 0,
         }
     }
 }
@@ -301,12 +310,13 @@ pub fn gen_cfg(rng: &mut Rng, p: &Profile) -> Vec<RepCfg> {
             }
         }
     }
+    let cleanup_allowed = rng.u32(0..100) < p.cleanup_pct;
     ids.iter()
         .map(|&id| RepCfg {
             id,
             gc: p.gc.unwrap_or_else(|| rng.bool()),
             bytes: rng.bool(),
-            cleanup: rng.u8(0..4) != 0,
+            cleanup: cleanup_allowed && rng.u8(0..4) != 0,
         })
         .collect()
 }
@@ -358,5 +368,6 @@ pub fn gen_program(rng: &mut Rng, p: &Profile) -> Program {
         };
         steps.push(step);
     }
-    Program { cfg, steps }
+    let ascii = rng.u32(0..100) < p.ascii_pct;
+    Program { cfg, steps, ascii }
 }
